@@ -2,6 +2,14 @@ use std::cell::RefCell;
 use std::fmt;
 use std::fs;
 use std::io;
+use std::io::Write;
+use std::rc::{Rc, Weak};
+
+thread_local! {
+    // The writers that are still open. exit() leaves through process::exit(),
+    // which runs no destructors, so it flushes them itself.
+    static OPEN_WRITERS: RefCell<Vec<Weak<FileHandle>>> = const { RefCell::new(Vec::new()) };
+}
 
 #[derive(Debug)]
 pub enum FileHandle {
@@ -16,8 +24,26 @@ impl FileHandle {
     pub fn new_reader(reader: io::BufReader<fs::File>) -> Self {
         Self::Reader(RefCell::new(reader))
     }
-    pub fn new_writer(writer: io::BufWriter<fs::File>) -> Self {
-        Self::Writer(RefCell::new(writer))
+    pub fn new_writer(writer: io::BufWriter<fs::File>) -> Rc<Self> {
+        let handle = Rc::new(Self::Writer(RefCell::new(writer)));
+        OPEN_WRITERS.with(|w| {
+            let mut w = w.borrow_mut();
+            w.retain(|h| h.strong_count() > 0);
+            w.push(Rc::downgrade(&handle));
+        });
+        handle
+    }
+    /// Flush every writer that is still open
+    pub fn flush_writers() {
+        OPEN_WRITERS.with(|w| {
+            for handle in w.borrow().iter().filter_map(Weak::upgrade) {
+                if let Self::Writer(writer) = handle.as_ref() {
+                    if let Ok(mut writer) = writer.try_borrow_mut() {
+                        let _ = writer.flush();
+                    }
+                }
+            }
+        });
     }
 }
 
